@@ -835,6 +835,8 @@ class MapGen:
                     spec["manual"]["wfields"] = r.sample(dn, r.randint(1, min(2, len(dn))))
                 if sn:
                     spec["manual"]["rfields"] = r.sample(sn, r.randint(1, min(2, len(sn))))
+        if r.random() < o.get("diamond", 0.04):
+            add_diamond(r, spec, o.get("diamond_side"))
         if r.random() < o.get("selfembed", 0.03):
             add_self_embed(r, spec, o.get("selfembed_side"), o.get("selfembed_variant"))
         return spec
@@ -865,6 +867,30 @@ def add_self_embed(rng, spec, side=None, variant=None):
         pos = [k for k in range(len(ms) + 1) if k == len(ms) or not ms[k].get("join")]
         ms.insert(rng.choice(pos), BACK(name))
         spec["selfembed"] = True
+    return spec
+
+
+def add_diamond(rng, spec, side=None):
+    """the same struct type embedded twice at different depths (`Doc{ *Wrap; *Audit }` with `Wrap{ *Audit }`): the shallower
+    occurrence wins by Go's selector rule whatever the declaration order (seeded change C09-5 keeps the deeper path when the
+    deeper occurrence is declared first)"""
+    sides = [side] if side in ("src", "dest") else rng.choice([["src"], ["dest"], ["src", "dest"]])
+    for sd in sides:
+        st = spec[sd]
+        outer = [(k, m) for k, m in enumerate(st["members"]) if m["k"] == "e" and not m["decl"].get("back") and
+                 any(x["k"] == "e" and not x["decl"].get("back") for x in m["decl"]["members"])]
+        if not outer:
+            continue
+        k, m = rng.choice(outer)
+        inner = rng.choice([x for x in m["decl"]["members"] if x["k"] == "e" and not x["decl"].get("back")])
+        if any(x["k"] == "e" and x["decl"]["name"] == inner["decl"]["name"] for x in st["members"]):
+            continue
+        ms = st["members"]
+        after = [j for j in range(k + 1, len(ms) + 1) if j == len(ms) or not ms[j].get("join")]
+        before = [j for j in range(0, k + 1) if not ms[j].get("join")]
+        pos = rng.choice(after) if rng.random() < 0.7 or not before else rng.choice(before)     # mostly: the deeper occurrence first
+        ms.insert(pos, E(inner["decl"], rng.random() < 0.6))
+        spec["diamond"] = True
     return spec
 
 
@@ -1322,6 +1348,10 @@ def count_features(spec, feats=None):
 
         def walk(st, d):
             for m in st["members"]:
+                if m["k"] == "e" and d == 0 and spec.get("diamond") and any(
+                        x["k"] == "e" and any(y["k"] == "e" and y["decl"]["name"] == m["decl"]["name"] for y in x["decl"]["members"])
+                        for x in st["members"] if x is not m):
+                    inc("%s-embedded-twice" % side)
                 if m["k"] == "e" and m["decl"].get("back"):
                     inc("%s-cyclic-embed-d%d" % (side, d + 1))
                 elif m["k"] == "e":
